@@ -96,6 +96,18 @@ Theorem C17_second_start_refuted_500 :
   ~ (forall hashf ckh ckhash genesis, second_start_sound (startup hashf 500 ckh ckhash genesis)).
 Proof. exact second_start_refuted_500. Qed.
 
+(* The defect in general, for every batch size: the rows of the complete batches in front of the first
+   bad record (wrong field count, or a field that does not parse) stay in the table, and as soon as
+   there is one such batch every later start, whatever file it is given, serves them without error. *)
+Theorem C17_leftovers_served : forall (hashf : src -> N) (bsz : nat) (ckh : Z) (ckhash : N) (genesis : xrow),
+  (0 < bsz)%nat -> forall (hdr : record) (g : list record) (bad : record) (rest : list record) rows st1,
+  import_recs hashf (List.length hdr) g ist0 = Ok (rows, st1) -> bad_at hashf (List.length hdr) st1 bad ->
+  let left := db_insert_all [] (firstn (List.length rows / bsz * bsz) rows) in
+  startup hashf bsz ckh ckhash genesis true [] (Some (hdr :: g ++ bad :: rest)) = (false, left) /\
+  ((bsz <= List.length rows)%nat ->
+   left <> [] /\ forall f2, startup hashf bsz ckh ckhash genesis true left f2 = (true, left)).
+Proof. exact leftovers_served. Qed.
+
 (* With the proposed repair (build/proposed-fixes/C17-1.diff, model startup_fixed) the full statement holds,
    and nothing else changes: same verdicts, same table whenever the start succeeds. *)
 Theorem C17_second_start_fixed : forall (hashf : src -> N) (bsz : nat) (ckh : Z) (ckhash : N) (genesis : xrow),
@@ -126,6 +138,7 @@ Print Assumptions C17_import_refuses.
 Print Assumptions C17_nonempty_db_untouched.
 Print Assumptions C17_second_start_refuted.
 Print Assumptions C17_second_start_refuted_500.
+Print Assumptions C17_leftovers_served.
 Print Assumptions C17_second_start_fixed.
 Print Assumptions C17_fixed_refusal_leaves_nothing.
 Print Assumptions C17_fixed_same_otherwise.
